@@ -64,7 +64,7 @@ na = [{'property_id': p, 'reason': NA.get(p, 'check under construction in this b
 m = {'version': 1, 'setup_cmd': './setup.sh',
      'hooks': {'guard': 'hctl_verif', 'enable': 'cargo feature hctl_verif (off by default): hv-native depends on /repo with features = ["hctl_verif"]; the only hook is a re-export of the private canonization functions (src/evaluation/mod.rs) used for native replay in C09; every other check uses the public API, and the MIR dump needs no hook',
                'baseline_off_cmd': 'cd /repo && cargo test --workspace --no-fail-fast --offline', 'source_commits': ['d415a4a'], 'add_only': True},
-     'engines': [{'name': 'hv', 'path': '/verif/hv', 'serves_properties': sorted(CLAIMED), 'kind_free_text': 'MIR -> z3 symbolic executor (merge mode for kernels, fork mode for text/tree/orchestration code) + universal-instance equivalence (real pipeline, BDD exported to z3) + native replay'}],
+     'engines': [{'name': 'hv', 'path': '/verif/hv', 'serves_properties': sorted(CLAIMED), 'kind_free_text': 'MIR -> z3 symbolic executor (merge mode for kernels, fork mode for text/tree/orchestration code) + universal-instance equivalence (real pipeline, BDD exported to z3) + native replay of every counterexample; bounded native enumeration (hv/fallback.py) only takes the place of text-level parts that the executor reports as unexplored on a given tree'}],
      'checks': checks, 'not_applicable': na,
      'notes': 'exit 0 = held on everything explored; exit 1 + VIOLATION line = violation reproduced natively; exit 2 = inconclusive (unsupported construct, solver unknown, non-reproducing counterexample)'}
 json.dump(m, open(os.path.join(os.path.dirname(__file__), 'MANIFEST.json'), 'w'), indent=1)
